@@ -43,7 +43,11 @@ pub fn child_main(arg: &str) -> i32 {
 }
 
 fn run_library_child(cwd: &Path, base: &str, shell: &str, mode: &str) -> String {
-    let arg = json!({"base": base, "shell": shell, "inputs": ["."], "mode": mode}).to_string();
+    run_library_child_inputs(cwd, base, shell, mode, &["."])
+}
+
+fn run_library_child_inputs(cwd: &Path, base: &str, shell: &str, mode: &str, inputs: &[&str]) -> String {
+    let arg = json!({"base": base, "shell": shell, "inputs": inputs, "mode": mode}).to_string();
     let exe = std::env::current_exe().unwrap();
     let mut c = std::process::Command::new(exe);
     c.arg("conf-child").arg(arg).current_dir(cwd).env_remove("TXTPP_FILE").stdin(std::process::Stdio::null());
@@ -254,6 +258,56 @@ fn run_case(rep: &Report, c: &ConfCase) {
     }
 }
 
+/// A source that enters the run only as a dependency of another source (the other one is the only input):
+/// its commands still run in ITS directory and TXTPP_FILE designates IT. Dependency below and above the depender.
+fn dependency_case(rep: &Report, depth: usize, rel: &'static str, entry: &'static str, up: bool) {
+    let l = layout(depth, rel);
+    let dep_dir = if up { l.src_dir.parent().unwrap().to_path_buf() } else { l.src_dir.join("deep") };
+    std::fs::create_dir_all(&dep_dir).unwrap();
+    let dep_src = dep_dir.join("b.txt.txtpp");
+    std::fs::write(&dep_src, "-TXTPP#run pwd -P\n+TXTPP#run printf '%s\\n' \"$TXTPP_FILE\"\nB\n").unwrap();
+    std::fs::write(l.src_dir.join("a.txt.txtpp"), format!("TXTPP#include {}\nA\n", if up { "../b.txt" } else { "deep/b.txt" })).unwrap();
+    let a_rel = l.src_dir.join("a.txt").strip_prefix(&l.base).unwrap().to_string_lossy().to_string();
+    let cj = json!({"engine": "E-conf", "dependency": true, "depth": depth, "rel": rel, "entry": entry, "up": up});
+    let what = format!("dependency {} the depender at depth {depth}, base/cwd relation {rel}, entry {entry}", if up { "one level above" } else { "below" });
+    let ok = if entry == "library" {
+        run_library_child_inputs(&l.cwd, &l.base_arg, "", "Build", &[&a_rel]) == "Ok"
+    } else {
+        let (code, to) = run_cli(&l.cwd, &["-q", &a_rel], &[], 30.0);
+        !to && code == 0
+    };
+    rep.tv(1);
+    rep.add("dependency_first_cases", 1);
+    if !ok {
+        rep.violate("command-failed", format!("{what}: the build of {a_rel} failed"), cj);
+        return;
+    }
+    let got = std::fs::read(dep_dir.join("b.txt")).ok().map(|b| String::from_utf8_lossy(&b).to_string()).unwrap_or_default();
+    let lines: Vec<&str> = got.lines().collect();
+    let real_dir = dep_dir.canonicalize().unwrap();
+    if lines.first().map(|p| Path::new(p)) != Some(real_dir.as_path()) {
+        rep.violate("working-directory", format!("{what}: the dependency's command ran in {:?}, its source is in {:?}", lines.first(), real_dir), cj.clone());
+    }
+    let tf = lines.get(1).cloned().unwrap_or("");
+    if !designates(tf, &dep_src, &l.base, &real_dir) {
+        rep.violate("txtpp-file", format!("{what}: TXTPP_FILE={tf:?} does not designate {}", dep_src.display()), cj);
+    }
+}
+
+fn dependency_cases(rep: &Report) {
+    for depth in 0..=3usize {
+        for (entry, rels) in [("library", &RELS[..]), ("cli", &["equal"][..])] {
+            for rel in rels {
+                let rel: &'static str = RELS.iter().find(|r| *r == rel).copied().unwrap_or("equal");
+                dependency_case(rep, depth, rel, entry, false);
+                if depth >= 1 {
+                    dependency_case(rep, depth, rel, entry, true);
+                }
+            }
+        }
+    }
+}
+
 fn guard_cases(rep: &Report) {
     // the binary refuses to start when TXTPP_FILE is already set — in every mode; nothing is touched
     for (mode_args, value) in [(vec![], "whatever"), (vec!["-N"], "whatever"), (vec!["verify"], "whatever"), (vec!["clean"], "whatever"), (vec![], " "), (vec!["verify"], "x y")] {
@@ -301,7 +355,7 @@ pub fn run_c17(tier: &str) -> i32 {
     let rep = Report::new("C17", tier);
     let cs = cases();
     rep.set("cases_planned", json!(cs.len()));
-    rep.set("bounds", json!("depth 0..3 x {library x 4 base/cwd relations, CLI x cwd=base} x 6 shells (default, bash -c, shells with several arguments and repeated blanks, an argv-echo script with and without extra arguments) x three source-name shapes x (5 command shapes + exit codes 0/1/7 + death by SIGKILL); TXTPP_FILE guard in 4 modes; a source that calls txtpp"));
+    rep.set("bounds", json!("depth 0..3 x {library x 4 base/cwd relations, CLI x cwd=base} x 6 shells (default, bash -c, shells with several arguments and repeated blanks, an argv-echo script with and without extra arguments) x three source-name shapes x (5 command shapes + exit codes 0/1/7 + death by SIGKILL); TXTPP_FILE guard in 4 modes; a source that calls txtpp; a source with commands that enters the run only as a dependency (below / above the depender, depth 0..3, every base/cwd relation, library and CLI)"));
     rep.assume("TXTPP_FILE 'designates' the source if it resolves to it as an absolute path, relative to the base directory or relative to the command's directory (Q5)");
     rep.st(4 * 4 * 6);
     sharded_dyn(&rep, par_threads(), |k, _n, next, rep| {
@@ -319,6 +373,9 @@ pub fn run_c17(tier: &str) -> i32 {
         if k == 0 {
             guard_cases(rep);
         }
+        if k == 1 % _n {
+            dependency_cases(rep);
+        }
     });
     rep.finish()
 }
@@ -327,6 +384,9 @@ pub fn replay(v: &Value) -> bool {
     let rep = Report::new("C17", "quick");
     if v.get("guard").is_some() {
         guard_cases(&rep);
+    } else if v.get("dependency").is_some() {
+        let rel = RELS.iter().find(|r| Some(**r) == v["rel"].as_str()).copied().unwrap_or("equal");
+        dependency_case(&rep, v["depth"].as_u64().unwrap_or(0) as usize, rel, if v["entry"].as_str() == Some("cli") { "cli" } else { "library" }, v["up"].as_bool().unwrap_or(false));
     } else {
         let rel = RELS.iter().find(|r| Some(**r) == v["rel"].as_str()).copied().unwrap_or("equal");
         let shell = SHELLS.iter().find(|r| Some(**r) == v["shell"].as_str()).copied().unwrap_or("default");
